@@ -23,7 +23,7 @@ prop("C01", level="exploration",
      rule="value generator DESIGN §2.4 (no byte strings, no NaN/Inf, bignums out of native range) x random option sets over all layout/escaping options x json/ojson/wjson; "
           "distinct = distinct typed description of the value; non-trivial = container with >=1 element or non-empty string",
      assumptions=["independent RFC 8259 recogniser drivers/common/rfc8259.hpp", "strict structural compare drivers/common/jvalue.hpp"],
-     stages=[dict(name="roundtrip", driver="c01_roundtrip", flagset="asan", quick=250000, thorough=6000000)])
+     stages=[dict(name="roundtrip", driver="c01_roundtrip", flagset="asan", quick=250000, thorough=3000000)])
 
 prop("C02", level="exploration",
      level_text="In-process monitor judged by an independent RFC 8259 recogniser/evaluator written from the ABNF (drivers/common/rfc8259.hpp; options: depth limit, comments, trailing comma). (1) Bounded-exhaustive: EVERY string of "
@@ -37,7 +37,7 @@ prop("C02", level="exploration",
      rule="exhaustive stage: all 10 172 526 strings of <= 5 alphabet symbols x 4 configurations; generative stage: foreign-written / mutated / JSONTestSuite texts; distinct = distinct texts; every text is non-trivial (the empty text once)",
      assumptions=["independent recogniser drivers/common/rfc8259.hpp", "glibc strtod is correctly rounded"],
      stages=[dict(name="exhaustive", driver="c02_parser", flagset="asan", quick=10172526, thorough=254313151, args_quick=["--mode", "exhaustive", "--L", "5"], args_thorough=["--mode", "exhaustive", "--L", "6"]),
-             dict(name="generative", driver="c02_parser", flagset="asan", quick=400000, thorough=20000000)])
+             dict(name="generative", driver="c02_parser", flagset="asan", quick=400000, thorough=6000000)])
 
 prop("C03", level="exploration",
      level_text="Differential monitor: each generated input (valid, mutated, truncated; JSON text and CBOR/MessagePack/UBJSON/BSON bytes) is decoded through the reference delivery "
@@ -50,7 +50,7 @@ prop("C03", level="exploration",
      rule="inputs = dumps of generated values (pretty/compact, CRLF), stress strings on token boundaries, 0-3 random mutations/truncations, every prefix of the stress strings; binary = encodings of "
           "generated values + byte mutations; distinct = distinct input bytes; every input counts as non-trivial (empty input included once)",
      assumptions=["the reference delivery is jsoncons' own whole-buffer reader: the oracle is agreement, not absolute correctness (C02/C07 judge that)"],
-     stages=[dict(name="delivery", driver="c03_delivery", flagset="asan", quick=120000, thorough=3000000)])
+     stages=[dict(name="delivery", driver="c03_delivery", flagset="asan", quick=120000, thorough=1200000)])
 
 prop("C05", level="exploration",
      level_text="Structure-aware mutational workload under ASan+UBSan+LSan over ~70 public entry points: decode_*/try_decode_* from bytes, streams and iterators, readers, pull cursors (walk, read_to, typed getters), "
@@ -63,11 +63,11 @@ prop("C05", level="exploration",
      technique="runtime monitoring: compiler sanitizers (ASan, UBSan, LSan) + exception-channel monitor + watchdog over a structure-aware mutational workload",
      rule="case = seed (encoding of a generated value, spec-style vector, JSONTestSuite/CSV fixture, expression, schema) + 0-5 byte/token mutations, executed through every entry point of its family; distinct = distinct mutated input; every input is non-trivial",
      assumptions=["sanitizer coverage limits (intra-object overflow, quarantine reuse)", "seeds under /repo/test are read at run time"],
-     stages=[dict(name="decoders", driver="c05_decoders", flagset="asan", quick=64000, thorough=8000000),
+     stages=[dict(name="decoders", driver="c05_decoders", flagset="asan", quick=64000, thorough=800000),
              dict(name="decoder_witnesses", driver="c05_decoders", flagset="asan", quick=5, thorough=5, args=["--mode", "witnesses"], workers_quick=1, workers_thorough=1),
-             dict(name="compilers", driver="c05_compilers", flagset="asan", quick=48000, thorough=6000000),
+             dict(name="compilers", driver="c05_compilers", flagset="asan", quick=48000, thorough=600000),
              dict(name="compiler_witnesses", driver="c05_compilers", flagset="asan", quick=4, thorough=4, args=["--mode", "witnesses"], workers_quick=1, workers_thorough=1),
-             dict(name="encoders", driver="c05_encoders", flagset="asan", quick=32000, thorough=4000000),
+             dict(name="encoders", driver="c05_encoders", flagset="asan", quick=32000, thorough=400000),
              dict(name="encoder_witnesses", driver="c05_encoders", flagset="asan", quick=2, thorough=2, args=["--mode", "witnesses", "--hang", "10"], workers_quick=1, workers_thorough=1)])
 
 prop("C06", level="exploration",
@@ -79,7 +79,7 @@ prop("C06", level="exploration",
      technique="runtime monitoring: in-process round-trip monitor with format-aware strict structural oracle and value shrinking, ASan/UBSan",
      rule="value generator DESIGN §2.4 with byte strings, non-finite doubles, half floats and CBOR tags; distinct = distinct (format, typed description); non-trivial = container with >=1 element or non-empty string",
      assumptions=["documented per-format mappings as transcribed in fdiff()", "strict structural compare"],
-     stages=[dict(name="binrt", driver="c06_binroundtrip", flagset="asan", quick=250000, thorough=6000000)])
+     stages=[dict(name="binrt", driver="c06_binroundtrip", flagset="asan", quick=250000, thorough=2500000)])
 
 prop("C07", level="exploration",
      level_text="Recorded-log monitor with independent reference decoders written from RFC 8949, the MessagePack spec, UBJSON draft 12 and BSON 1.1 (vlib/ref, validated on RFC 8949 App. A/F vectors): inputs are emitted by the "
@@ -90,7 +90,7 @@ prop("C07", level="exploration",
      technique="runtime monitoring: recorded decode log judged offline by independent reference decoders (differential oracle), ASan/UBSan on the decoding side",
      rule="inputs per format = 65 792 exhaustive + reference encodings of generated values in random legal spellings + prefixes + mutations; distinct = distinct byte strings; all inputs are non-trivial (the empty input appears once as a prefix)",
      assumptions=["reference codecs in vlib/ref (pure Python, written from the specifications)", "mapping reference value -> jsoncons data model in vlib/monitors/c07.py:expected_desc"],
-     stages=[dict(name="conformance", kind="python", module="c07", builds=[("x_bin", "asan")], values_quick=1200, values_thorough=60000)])
+     stages=[dict(name="conformance", kind="python", module="c07", builds=[("x_bin", "asan")], values_quick=1200, values_thorough=15000)])
 
 prop("C08", level="exploration",
      level_text="Recorded-log monitor: grammatical event sequences (balanced containers, keys alternating with values, container lengths declared correctly / too small / too large / not at all, every scalar kind and tag, typed arrays, "
@@ -115,7 +115,7 @@ prop("C09", level="exploration",
      technique="runtime monitoring: in-process reference-model history monitor + relational law monitor, ASan/UBSan",
      rule="histories of 50-400 random operations over 4 slots, keys from an 8-key alphabet (SSO boundary, empty, escapes), values from the model generator; distinct = distinct operation trace; every history is non-trivial",
      assumptions=["plain C++ model drivers/common/model.hpp", "values read through public observers only"],
-     stages=[dict(name="container", driver="c09_container", flagset="asan", quick=12000, thorough=3000000)])
+     stages=[dict(name="container", driver="c09_container", flagset="asan", quick=12000, thorough=150000)])
 
 prop("C10", level="exploration",
      level_text="Limit monitor: for every container-opening path of every decoder (JSON array/object/mixed; CBOR definite/indefinite/2-byte-length arrays and maps, tagged arrays, stringref namespaces; MessagePack fix/16/32 "
@@ -128,8 +128,8 @@ prop("C10", level="exploration",
      technique="runtime monitoring: boundary sweep monitor + allocation meter (operator new hook) under ASan/UBSan; painted-stack high-water monitor with guard page (no sanitizer)",
      rule="cells = (format, opening path, limit, depth offset, route) | (encoder, kind, limit) | (claim kind, claimed length, trailing bytes, source) | (max_items N, path); distinct = distinct case index, every cell is non-trivial",
      assumptions=["meter bound A=96KiB, B=24 is calibrated on the unchanged tree", "stack bound 256 KiB at -O2 without sanitizer instrumentation"],
-     stages=[dict(name="limits", driver="c10_limits", flagset="asan", quick=6000, thorough=400000),
-             dict(name="stack", driver="c10_stack", flagset="plain", quick=600, thorough=20000)])
+     stages=[dict(name="limits", driver="c10_limits", flagset="asan", quick=6000, thorough=80000),
+             dict(name="stack", driver="c10_stack", flagset="plain", quick=600, thorough=8000)])
 
 prop("C18", level="exploration",
      level_text="CSV: generated tables (cells: strings with delimiter/quote/escape characters, CR/LF, leading/trailing spaces, empty, number/boolean/null look-alikes, non-ASCII; integers, doubles, booleans, nulls) as arrays-of-"
@@ -141,7 +141,7 @@ prop("C18", level="exploration",
      technique="runtime monitoring: in-process round-trip monitor with an independent CSV field scanner and strict structural oracle; value shrinking for witnesses; ASan/UBSan",
      rule="case = generated (table, options) or (value, TOON options); distinct = distinct case index (CSV) / distinct value description (TOON); non-trivial = container with >= 1 element or non-empty string",
      assumptions=["CSV field scanner in drivers/c18_csv_toon.cpp implements RFC 4180 quoting with configurable quote/escape characters"],
-     stages=[dict(name="csvtoon", driver="c18_csv_toon", flagset="asan", quick=150000, thorough=6000000)])
+     stages=[dict(name="csvtoon", driver="c18_csv_toon", flagset="asan", quick=150000, thorough=2000000)])
 
 prop("C19", level="fault_enumeration",
      level_text="Fault enumeration: global operator new is replaced by a counting fail-point. For each of 19 scenarios (parse from string/stream, decode CBOR/MessagePack/UBJSON/BSON, deep copy, copy-assign "
@@ -154,7 +154,7 @@ prop("C19", level="fault_enumeration",
      technique="runtime monitoring with fault injection: counting operator-new fail-point enumerating every allocation index, live-block conservation monitor, tracking stateful allocator, ASan/UBSan",
      rule="case = (scenario, generated input); for each, every allocation index 1..N is injected; distinct = distinct case index; every case is non-trivial (N >= 1 allocations)",
      assumptions=["single allocation failure per run", "leak accounting by allocation headers written by the driver's operator new"],
-     stages=[dict(name="allocfail", driver="c19_allocfail", flagset="asan_noleak", quick=24000, thorough=200000)])
+     stages=[dict(name="allocfail", driver="c19_allocfail", flagset="asan_noleak", quick=24000, thorough=160000)])
 
 prop("C20", level="exploration",
      level_text="ThreadSanitizer build: 2-16 threads released together (spin barrier, randomized 0-50us start skew) run seeded mixes of read-only operations (is_valid, validate with reporter, walk; jsonpath "
@@ -165,7 +165,7 @@ prop("C20", level="exploration",
      technique="runtime monitoring: ThreadSanitizer race detection + per-thread result comparison against single-threaded results",
      rule="episode = (thread count in {2,4,8,16}, focus artifact, per-thread seeded operation streams); distinct = distinct (episode index, thread count); every episode is non-trivial",
      assumptions=["libstdc++ is not TSan-instrumented; std::regex internals are seen through interceptors only"],
-     stages=[dict(name="threads", kind="python", module="c20", builds=[("c20_threads", "tsan")], repeats_quick=3, episodes_quick=12, ops_quick=300, repeats_thorough=20, episodes_thorough=200, ops_thorough=2000)])
+     stages=[dict(name="threads", kind="python", module="c20", builds=[("c20_threads", "tsan")], repeats_quick=3, episodes_quick=12, ops_quick=300, repeats_thorough=6, episodes_thorough=30, ops_thorough=800)])
 
 prop("C16", level="exploration",
      level_text="Every generated (target, patch) pair and (source, target) pair is executed against the real apply_merge_patch/from_diff for json and ojson under ASan+UBSan and "
@@ -175,7 +175,7 @@ prop("C16", level="exploration",
      rule="(target, patch, source, dst) model-value tuples from a seeded generator over a 6-key alphabet (shared/unshared names at every depth, "
           "nested nulls, empty objects, arrays vs objects, non-object targets/patches); distinct = distinct tuple text; non-trivial = target or patch is a non-empty object",
      assumptions=["RFC 7386 pseudo-code transcription in drivers/c16_mergepatch.cpp is the reference", "values read back through basic_json public observers"],
-     stages=[dict(name="mergepatch", driver="c16_mergepatch", flagset="asan", quick=60000, thorough=12000000)])
+     stages=[dict(name="mergepatch", driver="c16_mergepatch", flagset="asan", quick=60000, thorough=2000000)])
 
 
 # additional property definitions live in vlib/propdefs/<id>.py (each module calls props.prop(...))
